@@ -3,12 +3,13 @@
 #     Confirms a seeded change in its scratch worktree: builds, the whole
 #     suite passes with the change, the demo fails with it and passes without.
 # tools/seed.sh keep <worktree> <variant> <seedname> <property> <pkgdir> "<needs>"
-#     Copies patch.diff, the demo and a meta.json into /verif/seeded/<seedname>/.
+# Copies patch.diff, the demo and a meta.json into /verif/seeded/<seedname>/.
 # tools/seed.sh run <seedname> <ID> [<ID>...]
-#     Applies /verif/seeded/<seedname>/patch.diff to /repo, runs the quick
-#     checks named, prints one line per check, and restores /repo.
+# Applies /verif/seeded/<seedname>/patch.diff to $R, runs the quick
+#     checks named, prints one line per check, and restores $R.
+V=${VERIF_DIR:-/verif}; R=${VERIF_REPO_DIR:-/repo}  # an isolated copy: VERIF_DIR=<copy of /verif> VERIF_REPO_DIR=VERIF_REPO=<worktree of /repo>
 export GOFLAGS=-mod=mod GOPROXY=off GOSUMDB=off GOTOOLCHAIN=local
-export VERIF_SCRATCH_OUT=/tmp/verif_scratch_out  # runs on a modified tree must not touch /verif/evidence
+export VERIF_SCRATCH_OUT=${TMPDIR:-/tmp}/verif_scratch_out  # runs on a modified tree must not touch $V/evidence
 set -u
 cmd=$1; shift
 case "$cmd" in
@@ -32,7 +33,7 @@ confirm)
   ;;
 keep)
   wt=$1; v=$2; name=$3; prop=$4; pkg=$5; needs=$6
-  d=/verif/seeded/$name
+  d=$V/seeded/$name
   mkdir -p "$d"
   cp "$wt/_out/$v/patch.diff" "$d/patch.diff"
   cp "$wt/_out/$v/"*_test.go "$d/" 2>/dev/null
@@ -49,17 +50,17 @@ EOF
   ;;
 run)
   name=$1; shift
-  d=/verif/seeded/$name
-  cd /repo || exit 2
-  if [ -n "$(git status --porcelain)" ]; then echo "RUN: /repo not clean"; exit 2; fi
+  d=$V/seeded/$name
+  cd $R || exit 2
+  if [ -n "$(git status --porcelain)" ]; then echo "RUN: $R not clean"; exit 2; fi
   git apply "$d/patch.diff" || { echo "RUN: patch does not apply"; exit 2; }
   for id in "$@"; do
     t0=$(date +%s)
-    (cd /verif && ./check "$id" ${TIER:-quick} >/tmp/seed_run_$id.log 2>&1); rc=$?
+    (cd $V && ./check "$id" ${TIER:-quick} >${TMPDIR:-/tmp}/seed_run_$id.log 2>&1); rc=$?
     t1=$(date +%s)
-    nv=$(grep -c '^VIOLATION' /tmp/seed_run_$id.log)
-    tt=""; [ "${TIER:-quick}" = thorough ] && tt="[thorough]"; echo "RUN$tt: seed=$name check=$id exit=$rc violations_lines=$nv time=$((t1-t0))s :: $(grep -m1 '^violation:' /tmp/seed_run_$id.log | cut -c1-200)"
+    nv=$(grep -c '^VIOLATION' ${TMPDIR:-/tmp}/seed_run_$id.log)
+    tt=""; [ "${TIER:-quick}" = thorough ] && tt="[thorough]"; echo "RUN$tt: seed=$name check=$id exit=$rc violations_lines=$nv time=$((t1-t0))s :: $(grep -m1 '^violation:' ${TMPDIR:-/tmp}/seed_run_$id.log | cut -c1-200)"
   done
-  git -C /repo checkout -q -- .
+  git -C $R checkout -q -- .
   ;;
 esac
